@@ -301,7 +301,7 @@ def oracle_kind(msg):
 
 
 # which oracle messages belong to which property
-C01_ORACLES = {"empty-but-not-drained", "read-bytes-not-next-in-stream", "read-region-beyond-committed",
+C01_ORACLES = {"empty-but-not-drained", "reader-status-not-ok", "read-bytes-not-next-in-stream", "read-region-beyond-committed",
                "join-not-at-write-boundary", "read-region-outside-buffer", "read-region-negative"}
 C05_ORACLES = {"frame-write-misaligned", "frame-region-misaligned", "frame-region-not-whole-frames"}
 C02_ORACLES = {"write-region-outside-buffer", "write-region-overlaps-mapped-reader", "write-region-overlaps-unconsumed",
@@ -390,6 +390,26 @@ def explore(ctx, oracles, frame_mode=False):
     if ctx.corr_broken and not ctx.violations and not thorough:
         # directed search: the model and the code disagree but no oracle fired yet -> look harder for a failing input
         extra = []
+        # (a) continuations of the minimised diverging histories: the state in which code and model part ways, followed by every
+        #     reader reading on and the writer writing on in random order (ill-formed steps are skipped identically by both sides)
+        for cb in [c for c in ctx.corr_broken if c.get("script")][:3]:
+            cap0 = int(cb["script"][0].split()[1])
+            base = cb["script"][1:]
+            nr0 = sum(1 for o in base if o == "join")
+            sizes = [n for n in ([1, 2, cap0 // 3, cap0 // 2, cap0 - 1] + (BIG_SIZES if cap0 > (1 << 24) else [])) if 1 <= n < cap0] or [1]
+            for k in range(400):
+                suf = []
+                if k % 2 == 0:
+                    suf.append("wcommit")
+                for _ in range(rng.choice([2, 4, 8, 16])):
+                    r = rng.random()
+                    if r < 0.3:
+                        suf += ["wmap %d" % rng.choice(sizes), "wcommit"]
+                    elif nr0:
+                        i = rng.randrange(nr0)
+                        suf += ["rmap %d" % i] if rng.random() < 0.5 else ["runmap %d %d" % (i, rng.choice([0, 1, cap0, cap0]))]
+                extra.append((cap0, base + suf))
+        # (b) fresh random histories
         for k in range(3000):
             cap = caps[k % len(caps)]
             extra.append((cap, gen_random(rng, cap, rng.choice([300, 600, 1500]), 1 + (k // len(caps)) % 8, frame_mode)))
